@@ -166,6 +166,14 @@ Proof.
   - unfold set_not_found. apply upd_set_with_expire. rewrite N. apply H1. reflexivity.
 Qed.
 
+Lemma take_pk_dberr_upd (P : key -> cval -> Z -> Prop) e n id :
+  let '(e', n', r) := take_pk_dberr e n id in upd P n n' /\ db e' = db e.
+Proof.
+  unfold take_pk_dberr. pose proof (upd_do_get P dec_row n (PK id)) as U.
+  destruct (do_get dec_row n (PK id)) as [n1 g]. simpl in U.
+  destruct g as [[[a b] v]| | | |]; split; auto.
+Qed.
+
 Lemma query_row_index_upd (P : key -> cval -> Z -> Prop) c f1 f2 e n i :
   (forall id, db_row (db e) id = None -> P (PK id) VStar (now n + ceil_secs (around f2 (nfexpire c)))) ->
   (forall id ix v, db_row (db e) id = Some (ix, v) -> P (PK id) (VRow id ix v) (now n + ceil_secs (around f2 (expire c)))) ->
@@ -238,7 +246,7 @@ Lemma step_Inv c s o : Inv s -> fdel (snd s) = false -> op_ok s o ->
   Inv (step_st c s o) /\ fdel (snd (step_st c s o)) = false.
 Proof.
   destruct s as [e n]. unfold Inv, step_st; simpl. intros HI Fd Hok.
-  destruct o as [id f|i f1 f2|w ks|ks|k v f|dt| |g s0 d|k g ttl|kc]; simpl.
+  destruct o as [id f|i f1 f2|w ks|ks|k v f|dt| |g s0 d|k g ttl|kc|ide]; simpl.
   - pose proof (take_pk_upd (goodP (db e)) c f e n id) as T.
     destruct (take_pk c f e n id) as [[e' n'] r]. simpl.
     destruct T as [U D].
@@ -287,6 +295,9 @@ Proof.
   - split; [exact HI | exact Hok].
   - split; [|assumption]. eapply upd_Inv; [|exact HI]. apply upd_setex. exact I.
   - split; [exact HI | exact Fd].
+  - pose proof (take_pk_dberr_upd (goodP (db e)) e n ide) as T.
+    destruct (take_pk_dberr e n ide) as [[e' n'] r]. simpl. destruct T as [U D].
+    rewrite D. split; [eapply upd_Inv; eauto|]. destruct U as (_ & _ & _ & E & _). congruence.
 Qed.
 
 Fixpoint hist_ok (c : cfg) (s : env * node) (ops : list op) : Prop :=
@@ -372,7 +383,7 @@ Proof.
   destruct s as [e n]. unfold alive, step_st. simpl. intros (A & B & C) H.
   assert (G : forall n', upd (fun _ _ _ => True) n n' -> fget n' = false /\ fset n' = false /\ fdel n' = false).
   { intros n' (_ & E1 & E2 & E3 & _). repeat split; congruence. }
-  destruct o as [id f|i f1 f2|w ks|ks|k v f|dt| |g s0 d|k g ttl|kc]; simpl.
+  destruct o as [id f|i f1 f2|w ks|ks|k v f|dt| |g s0 d|k g ttl|kc|ide]; simpl.
   - pose proof (take_pk_upd (fun _ _ _ => True) c f e n id) as T.
     destruct (take_pk c f e n id) as [[e' n'] r]. apply G. apply T; auto.
   - pose proof (query_row_index_upd (fun _ _ _ => True) c f1 f2 e n i) as T.
@@ -386,6 +397,8 @@ Proof.
   - destruct H as (-> & -> & ->). auto.
   - auto.
   - auto.
+  - pose proof (take_pk_dberr_upd (fun _ _ _ => True) e n ide) as T.
+    destruct (take_pk_dberr e n ide) as [[e' n'] r]. apply G. apply T.
 Qed.
 
 Lemma run_alive c ops : forall s, alive (snd s) -> Forall no_fault ops -> alive (snd (run c ops s)).
